@@ -12,6 +12,7 @@ coqproject:
 
 coqproject-locked:
 	@python3 translate/run_all.py >/dev/null || echo "translator refused a kernel (see ./check of the property)"
+	@python3 tools/stale_vo.py >/dev/null || true
 	@cd $(COQDIR) && { echo "-Q . Tetl"; echo "-arg -w -arg -notation-overridden,-deprecated-hint-without-locality,-deprecated-instance-without-locality"; find . -name '*.v' -not -path './Gen/*' | sed 's|^\./||' | LC_ALL=C sort; [ -d Gen ] && find Gen -name '*.v' | LC_ALL=C sort; true; } > _CoqProject.new
 	@cd $(COQDIR) && if ! cmp -s _CoqProject.new _CoqProject; then mv _CoqProject.new _CoqProject; coq_makefile -f _CoqProject -o Makefile; else rm -f _CoqProject.new; fi
 	@cd $(COQDIR) && [ -f Makefile ] || coq_makefile -f _CoqProject -o Makefile
